@@ -67,7 +67,7 @@ dunder subsets, methods returning values or `NotImplemented`), every statement o
 of pytype reports an error, then — unless the statement consults one of the known-finding rows —
 CPython raises TypeError or AttributeError (for all representative values of builtin operands). -/
 theorem no_false_error (H : Hier) (s : Stmt) (herr : (modelStmt genView H s).isErr = true)
-    (hrow : ∀ k, s.row genView = some k → k ∉ BuiltinOps.knownFalse) :
+    (hrow : ∀ k, s.row genView H = some k → k ∉ BuiltinOps.knownFalse) :
     ∀ o ∈ cpyStmt genView H s, o = .typeError ∨ o = .attrError := by
   have h := stmt_no_false_error genView _ builtin_table_agrees.1 H s herr hrow
   intro o ho
@@ -104,7 +104,7 @@ non-callable.  If CPython raises TypeError/AttributeError (for some representati
 of pytype reports an error, unless the statement consults a known-finding row. -/
 theorem catches_builtin (H : Hier) (s : Stmt) (hadv : s.advertised genView = true)
     (hbad : ∃ o ∈ cpyStmt genView H s, o = .typeError ∨ o = .attrError)
-    (hrow : ∀ k, s.row genView = some k → k ∉ BuiltinOps.knownMissed) :
+    (hrow : ∀ k, s.row genView H = some k → k ∉ BuiltinOps.knownMissed) :
     (modelStmt genView H s).isErr = true := by
   refine stmt_catches genView _ builtin_table_agrees.2 H s hadv ?_ hrow
   obtain ⟨o, ho, hb⟩ := hbad
@@ -186,13 +186,19 @@ example : modelBinop genView demoH (.u 1) .add (.u 0) = .ok (some (.val 1)) := b
 example : (modelStmt genView demoH (.bin (.u 0) .sub (.u 2))).isErr = true := by decide +kernel
 example : cpyStmt genView demoH (.bin (.u 0) .sub (.u 2)) = [.typeError] := by decide +kernel
 example : (modelStmt genView demoH (.bin (.b 0) .sub (.u 2))).isErr = true := by decide +kernel
-example : (Stmt.bin (.b 0) .sub (.u 2)).row genView = some (1, 0, 0, 19) := by decide +kernel
+example : (Stmt.bin (.b 0) .sub (.u 2)).row genView demoH = some (1, 0, 0, 19) := by decide +kernel
 example : (1, 0, 0, 19) ∉ BuiltinOps.knownFalse := by decide +kernel
 example : (modelStmt genView demoH (.bin (.b 0) .add (.b 4))).isErr = true := by decide +kernel
 example : cpyStmt genView demoH (.bin (.b 0) .add (.b 4)) = [.typeError] := by decide +kernel
 -- mixed operands where the user class's reflected method is used: `1 + A0()`
 example : modelStmt genView demoH (.bin (.b 0) .add (.u 0)) = .ok (some (.val 2)) := by decide +kernel
 example : cpyStmt genView demoH (.bin (.b 0) .add (.u 0)) = [.ok] := by decide +kernel
+-- a class with `__getitem__` is an `Iterable` for pytype's matcher: `{1, 2} - A1()` is accepted through
+-- `set.__sub__(self, y: Iterable)` (table row set_int - useri) and a TypeError in CPython (not required
+-- by clause 2: user-class operand)
+example : (Stmt.bin (.b 16) .sub (.u 1)).row genView demoH = some (1, 0, 16, 20) ∧
+    modelStmt genView demoH (.bin (.b 16) .sub (.u 1)) = .ok none ∧
+    cpyStmt genView demoH (.bin (.b 16) .sub (.u 1)) = [.typeError] := by decide +kernel
 -- attribute lookup: instance attribute, inherited class attribute, missing
 example : modelAttr demoH 1 "i0" = .ok none ∧ modelAttr demoH 1 "k0" = .ok none ∧
     modelAttr demoH 1 "zz" = .err .attribute ∧ cpyAttr demoH 1 "zz" = [.attrError] := by decide
